@@ -263,7 +263,7 @@ def eye(config=None, legs=(), isdiag=True, **kwargs) -> Tensor:
         inds = [[-i, -i - lt] for i in range(lt)]
         tmp = ncon(tens, inds)
         axes = (tuple(range(lt)), tuple(range(lt, 2 * lt)))
-        return tmp.fuse_legs(axes=axes)
+        return tmp.fuse_legs(axes=axes, mode='hard')
     else:
         tmp = _fill(config=config, legs=legs, val='zeros', **kwargs)
         for t, D in zip(tmp.struct.t, tmp.struct.D):
